@@ -335,27 +335,47 @@ def _preamble(ck: Checker, prog: Program, f):
 
 
 def _trim(ck: Checker, prog: Program):
+    """trim_curve by value: the triple returned is (frequency, mean, std)[lo:hi+1] with lo / hi the first sample nearest to
+    the smaller / larger limit of the range (one index pair for the three curves)."""
+    from ..pathtable import PathTable
     t = prog.func("sesame.trim_curve")
-    T = Translator()
-    forward_substitute([st for st in t.node.body if isinstance(st, ast.Assign)], T)
-    sl = {}
-    for st in t.node.body:
-        if isinstance(st, ast.Assign) and isinstance(st.value, ast.Subscript) and unparse(st.targets[0]) in ("frequency", "mean_curve", "std_curve"):
-            sl[unparse(st.targets[0])] = (unparse(st.value.value), unparse(st.value.slice))
-    rets = [r for r in own_nodes(t.node) if isinstance(r, ast.Return)]
-    good = sl == {k: (k, "lower_index:upper_index") for k in ("frequency", "mean_curve", "std_curve")} and len(rets) == 1 \
-        and unparse(rets[0].value) == "(frequency, mean_curve, std_curve)"
-    idx_ok = False
-    for st in t.node.body:
-        pass
-    d = {unparse(st.targets[0]): unparse(st.value) for st in t.node.body if isinstance(st, ast.Assign)}
-    idx_ok = d.get("lower_index") == "np.where(rel_frq_low == np.min(rel_frq_low))[0][0]" and d.get("upper_index") == "np.where(rel_frq_upp == np.min(rel_frq_upp))[0][0] + 1" \
-        and d.get("rel_frq_low") == "np.abs(frequency - low_limit)" and d.get("rel_frq_upp") == "np.abs(frequency - upp_limit)" \
-        and d.get("(low_limit, upp_limit)") == "(min(search_range_in_hz), max(search_range_in_hz))"
-    if good and idx_ok:
-        ck.ok("C16.R4", t.qualname, "all three curves cut to [nearest(low), nearest(high)] inclusive")
+    if t.params[:4] != ["search_range_in_hz", "frequency", "mean_curve", "std_curve"]:
+        raise AnalysisError(f"{t.qualname}: parameters are {t.params}")
+    pt = PathTable(prog, t.module, unroll=True, scope=t, skip_if=_is_print_block)
+    leaves = [l for l in pt.leaves(t.node.body) if l.exit == "return"]
+    if len(leaves) != 1:
+        raise AnalysisError(f"{t.qualname}: expected one returning path, found {len(leaves)}")
+    got = leaves[0].value
+    if getattr(getattr(got, "func", None), "__name__", "") in ("tuple", "list") and len(got.args) == 1:
+        got = got.args[0]
+    TW = pt._T({})
+
+    def E(src):
+        return TW.tr(ast.parse(src, mode="eval").body)
+    nearest = ["np.where(np.abs(frequency - {L}) == np.min(np.abs(frequency - {L})))[0][0]", "np.argmin(np.abs(frequency - {L}))",
+               "int(np.argmin(np.abs(frequency - {L})))", "np.abs(frequency - {L}).argmin()"]
+    lows = [E(n.format(L="min(search_range_in_hz)")) for n in nearest]
+    upps = [E(n.format(L="max(search_range_in_hz)")) for n in nearest]
+    gi, sl, NONE = sp.Function("getitem"), sp.Function("slice"), sp.Symbol("None")
+    curves = [sp.Symbol(c, real=True) for c in ("frequency", "mean_curve", "std_curve")]
+    good = False
+    detail = str(got)[:200]
+    if isinstance(got, sp.Tuple) and len(got) == 3:
+        cuts = set()
+        okc = True
+        for g, c in zip(got, curves):
+            if getattr(g, "func", None) == gi and g.args[0] == c and getattr(g.args[1], "func", None) == sl:
+                cuts.add(g.args[1])
+            else:
+                okc = False
+        if okc and len(cuts) == 1:
+            lo, hi, step = next(iter(cuts)).args
+            good = step == NONE and any(equal(lo, w) for w in lows) and any(equal(hi, w + 1) for w in upps)
+            detail = f"[{lo} : {hi}]"[:260]
+    if good:
+        ck.ok("C16.R4", t.qualname, "all three curves cut to [nearest(low), nearest(high)] inclusive", detail=detail)
     else:
-        ck.violation("C16.R4", t.qualname, "trim", f"the three curves are not cut with one inclusive nearest-sample index range (slices {sl}; indices ok: {idx_ok})", loc=t.loc())
+        ck.violation("C16.R4", t.qualname, "trim", f"the three curves are not cut with one inclusive nearest-sample index range ({detail})", loc=t.loc())
 
 
 def _r5(ck: Checker, f):
@@ -404,11 +424,24 @@ def _r5(ck: Checker, f):
 
 
 def _peak_index(ck: Checker, prog: Program):
+    from ..pathtable import PathTable
+    from .c08 import _static_hook
     f = prog.func("sesame.peak_index")
-    d = [st for st in f.node.body if isinstance(st, ast.Assign)]
-    rets = [r for r in own_nodes(f.node) if isinstance(r, ast.Return)]
-    good = len(d) == 1 and unparse(d[0].value) == "HvsrCurve._find_peak_unbounded(np.arange(len(curve)), curve)" \
-        and isinstance(d[0].targets[0], ast.Tuple) and len(rets) == 1 and unparse(rets[0].value) == unparse(d[0].targets[0].elts[0])
+    if f.params[:1] != ["curve"]:
+        raise AnalysisError(f"{f.qualname}: parameters are {f.params}")
+    leaves = [l for l in PathTable(prog, f.module, call_hook=_static_hook(prog, f.module), unroll=True).leaves(f.node.body) if l.exit == "return"]
+    C = sp.Symbol("curve", real=True)
+    F = sp.Function
+    axes = [F("arange")(F("len")(C)), F("arange")(F("attr_size")(C)), F("arange")(sp.Symbol("curve.size", real=True))]
+    good = False
+    if len(leaves) == 1 and leaves[0].value is not None:
+        v = leaves[0].value
+        if getattr(getattr(v, "func", None), "__name__", "") == "int" and len(v.args) == 1:
+            v = v.args[0]
+        for ax in axes:
+            for kw in (F("default")(sp.Symbol("None")), sp.Symbol("None")):
+                if v == F("getitem")(F("_find_peak_unbounded")(ax, C, kw), sp.Integer(0)):
+                    good = True
     if good:
         ck.ok("C16.R2", f.qualname, "peak index = highest local maximum of the curve (index axis)")
     else:
